@@ -100,8 +100,15 @@ def discharge(obs, lw: L.Lowerer = None, timeout=20.0, levels=(1, 2), pool=None,
     """Decide every obligation.  Sets ob.verdict in {'discharged','candidate','inconclusive'}."""
     pool = pool or solve.pool()
     lw = lw or L.Lowerer()
-    todo = [o for o in obs if not o.trivial]
-    triv = [o for o in obs if o.trivial]
+    # an inf / nan that numpy produced from constants and that survives into the obligation (0 * inf, inf - inf): no query
+    # can be built; it is a candidate whose replay is "does the real code return a non-finite or wrong value here"
+    for o in obs:
+        if o.verdict is None and any(isinstance(r, Sym) and r.pz for r in o.roots()):
+            pn = [n for n in reachable(o.roots()) if n.op == "poison"]
+            o.verdict, o.level, o.model = "candidate", "poison", {}
+            o.detail = "a value obtained by %s reaches this obligation" % (pn[0].args[0] if pn else "inf/nan arithmetic")
+    todo = [o for o in obs if not o.trivial and o.verdict is None]
+    triv = [o for o in obs if o.trivial and o.verdict is None]
     # trivial obligations (both sides are the same DAG node) are still sent, batched into one query
     if triv:
         # both sides are one hash-consed node: abstract it by a fresh real (sound), so the text stays small
@@ -244,16 +251,18 @@ def discharge(obs, lw: L.Lowerer = None, timeout=20.0, levels=(1, 2), pool=None,
 _in_sign_pass = [False]
 
 
-def sign_pass(left, timeout, pool, state=None, level=2, max_dens=24):
-    """Denominators (and even-power style sub-terms) whose sign the solver can prove separately are replaced by fresh
-    reals that carry only that sign: an over-approximation, so `unsat` still discharges.  Lemma queries are obligations
-    of the same run (cond: den <= 0 resp. den >= 0 under the obligation's assumptions)."""
+def sign_pass(left, timeout, pool, state=None, level=2, max_dens=24, max_total=96, max_obs=40):
+    """Denominators whose sign the solver can prove separately are replaced by fresh reals that carry only that sign:
+    an over-approximation, so `unsat` still discharges.  Two batches: (1) sign lemmas, one plain level-2 query per
+    (denominator, sign) under the assumptions of the obligation it occurs in, short timeout; (2) the obligations with
+    the proven denominators cut."""
     from .sym import ge, le
 
     _in_sign_pass[0] = True
     try:
-        cache = {}
-        for o in left:
+        per_ob = []
+        lem = {}
+        for o in left[:max_obs]:
             roots = o.roots() + [s for a in o.assume for s in bool_syms(a)]
             dens = {}
             for n in reachable(roots):
@@ -261,22 +270,35 @@ def sign_pass(left, timeout, pool, state=None, level=2, max_dens=24):
                     dens[n.args[1].nid] = n.args[1]
             if not dens or len(dens) > max_dens:
                 continue
-            lem = []
+            per_ob.append((o, dens))
             for nid, d in dens.items():
-                if nid not in cache:
-                    cache[nid] = None
-                    lem.append(Ob("sign lemma #%d > 0" % nid, cond=le(d, 0), assume=o.assume, meta={"nid": nid, "sg": ">"}))
-                    lem.append(Ob("sign lemma #%d < 0" % nid, cond=ge(d, 0), assume=o.assume, meta={"nid": nid, "sg": "<"}))
-            if lem:
-                discharge(lem, timeout=min(timeout, 5.0), levels=(1, 2), pool=pool, keep_text=0, cut_threshold=0)
-                for l in lem:
-                    if l.verdict == "discharged":
-                        cache[l.meta["nid"]] = l.meta["sg"]
-            signs = {nid: cache[nid] for nid in dens if cache.get(nid)}
+                if nid not in lem and len(lem) < max_total:
+                    lem[nid] = (d, o.assume)
+        if not per_ob:
+            return
+        jobs, tags = [], []
+        for nid, (d, assume) in lem.items():
+            for sg, c in ((">", le(d, 0)), ("<", ge(d, 0))):
+                ob = Ob("sign lemma #%d %s 0" % (nid, sg), cond=c, assume=assume)
+                try:
+                    text, _ = _text_for(L.Lowerer(), ob, level)
+                except Exception:
+                    continue
+                jobs.append((text, min(timeout, 3.0), "z3", True))
+                tags.append((nid, sg))
+        gid = {}
+        res = pool.run(jobs, groups=[gid.setdefault(t[0], len(gid)) for t in tags], final=lambda qid, r: r["result"] == "unsat") if jobs else []
+        signs_all = {}
+        for (nid, sg), r in zip(tags, res):
+            if r["result"] == "unsat":
+                signs_all[nid] = sg
+        if state is not None:
+            state["queries"] += len(jobs)
+        jobs, tags = [], []
+        for o, dens in per_ob:
+            signs = {nid: signs_all[nid] for nid in dens if nid in signs_all}
             if not signs:
                 continue
-            # keep only outermost proven denominators? inner ones are hidden below the cuts anyway
-            jobs = []
             for kw in ({}, dict(divvar=True)):
                 lw = L.Lowerer(cuts={k: True for k in signs}, **kw)
                 lw.cut_signs = dict(signs)
@@ -285,15 +307,17 @@ def sign_pass(left, timeout, pool, state=None, level=2, max_dens=24):
                 except Exception:
                     continue
                 jobs.append((text, timeout, "z3", True))
-            if not jobs:
-                continue
-            res = pool.run(jobs, groups=[0] * len(jobs), final=lambda qid, r: r["result"] == "unsat")
-            if state is not None:
-                state["queries"] += len(jobs)
-            for r in res:
-                o.time += r.get("time", 0.0)
-                if r["result"] == "unsat":
-                    o.verdict, o.level, o.model, o.detail = "discharged", "signcut/%d" % level, None, ""
+                tags.append(o)
+        if not jobs:
+            return
+        gid = {}
+        res = pool.run(jobs, groups=[gid.setdefault(id(o), len(gid)) for o in tags], final=lambda qid, r: r["result"] == "unsat")
+        if state is not None:
+            state["queries"] += len(jobs)
+        for o, r in zip(tags, res):
+            o.time += r.get("time", 0.0)
+            if r["result"] == "unsat":
+                o.verdict, o.level, o.model, o.detail = "discharged", "signcut/%d" % level, None, ""
     finally:
         _in_sign_pass[0] = False
 
